@@ -335,7 +335,37 @@ def _loc(r):
     return "%s:%s %s" % (os.path.basename(sl.get("file", "?")), sl.get("line", "?"), sl.get("function", ""))
 
 
+class MemBudget:
+    """admission control: the sum of the declared mem_gb of running cases stays below the pool"""
+    def __init__(self, total):
+        self.total, self.used, self.cv = total, 0, threading.Condition()
+
+    def acquire(self, n):
+        n = min(n, self.total)
+        with self.cv:
+            while self.used + n > self.total:
+                self.cv.wait()
+            self.used += n
+        return n
+
+    def release(self, n):
+        with self.cv:
+            self.used -= n
+            self.cv.notify_all()
+
+
+MEM = MemBudget(int(os.environ.get("VF_MEM_GB", "44")))
+
+
 def run_case(c, tier, keep=False):
+    w = MEM.acquire(c.get("mem_gb", 3))
+    try:
+        return run_case_(c, tier, keep)
+    finally:
+        MEM.release(w)
+
+
+def run_case_(c, tier, keep=False):
     t0 = time.time()
     wd = os.path.join(BUILD, "work", c.pid, c.hname, re.sub(r"[^A-Za-z0-9_.-]", "_", c.name))
     shutil.rmtree(wd, ignore_errors=True)
@@ -348,7 +378,7 @@ def run_case(c, tier, keep=False):
     timeout = c.get("timeout", 300)
     if tier == "thorough":
         timeout = c.get("timeout_thorough", timeout * 2)
-    memcap = int(c.get("mem_gb", 12) * 1024 * 1024)
+    memcap = int(max(c.get("mem_gb", 3) * 2, 6) * 1024 * 1024)   # hard cap = twice the declared budget (>= 6 GB)
     sel = []
     ex_re, only_re = c.get("exclude_properties_re"), c.get("only_properties_re")
     if ex_re or only_re:
@@ -387,7 +417,7 @@ def run_case(c, tier, keep=False):
         tail = (out[-1500:] + err[-1500:])
         oom = "bad_alloc" in tail or "Out of memory" in tail or rc in (-6, -9, 134, 137)
         c.status = "undecided" if oom else "error"
-        c.detail = ("out of memory (cap %d GB)" % c.get("mem_gb", 12)) if oom else ("cbmc gave no result rc=%s: %s" % (rc, "\n".join(msgs[-6:]) + tail))
+        c.detail = ("out of memory (cap %d GB)" % (memcap // (1024 * 1024))) if oom else ("cbmc gave no result rc=%s: %s" % (rc, "\n".join(msgs[-6:]) + tail))
         c.wall_s = time.time() - t0
         if not keep:
             shutil.rmtree(wd, ignore_errors=True)
